@@ -227,6 +227,7 @@ def chan_facts(ctx):
     f, paths, cfg = O.run_fn(ctx, O.CHAN_PE, unroll=1, inline=O.INL_PING, key="chan")
     rng = None
     selfping_on_exhaustion, selfping_otherwise = None, False
+    exh_paths = []
     remove_on_closed = None
     for p in paths:
         if p.status != "return" or not O.ret_is(p, 0):
@@ -244,6 +245,7 @@ def chan_facts(ctx):
         closed = any(O.is_cb(e) and any(isinstance(a, Enum) and O.enum_name(a) == "Closed" for a in e.args) for e in p.trace)
         if nexts and nexts[-1].callee == "None":
             selfping_on_exhaustion = bool(wr) if selfping_on_exhaustion is None else (selfping_on_exhaustion and bool(wr))
+            exh_paths.append((list(p.pc), bool(wr)))
         elif tr and wr:
             selfping_otherwise = True
         if closed:
@@ -252,8 +254,25 @@ def chan_facts(ctx):
     if rng is None or not z3.is_bv(rng):
         raise Unsupported("channel batch limit not found")
     facts.update(max_expr=rng, selfping_on_exhaustion=bool(selfping_on_exhaustion), selfping_otherwise=selfping_otherwise,
-                 remove_on_closed=bool(remove_on_closed))
+                 remove_on_closed=bool(remove_on_closed), exh_paths=exh_paths)
     return facts
+
+
+def selfping_for(facts, capacity):
+    """does the loop wake itself up when a drain round of a channel of this capacity ends by exhausting its batch? Decided
+    per capacity from the path conditions of the exhaustion paths (the code may make it depend on the capacity)."""
+    vs = O.z3util_vars(facts["max_expr"])
+    answers = set()
+    for pc, wrote in facts["exh_paths"]:
+        sv = z3.Solver()
+        sv.add(*pc)
+        for v in vs:
+            sv.add(v == z3.BitVecVal(capacity, 64))
+        if sv.check() == z3.sat:
+            answers.add(wrote)
+    if len(answers) != 1:
+        raise Unsupported("self-wake-up on batch exhaustion is not determined by the capacity (%s)" % sorted(answers))
+    return answers.pop()
 
 
 def batch_limit(facts, capacity):
@@ -264,7 +283,7 @@ def batch_limit(facts, capacity):
     return e.as_long()
 
 
-def chan_loop(facts, vp, rounds, maxb, nmsgs):
+def chan_loop(facts, vp, rounds, maxb, nmsgs, selfping=None):
     """the loop thread: per round wait, drain the eventfd, then up to `maxb` try_recv (each only if
     all earlier ones of the round returned a message), then the self-ping if the batch was exhausted"""
     ops = []
@@ -279,7 +298,7 @@ def chan_loop(facts, vp, rounds, maxb, nmsgs):
             ops.append(P.Op("q_try_recv", cond=(lambda get, prev=prev: z3.And(*[get(o, "ok") for o in prev]) if prev else z3.BoolVal(True))))
             recvs.append(len(ops) - 1)
         sp = None
-        if facts["selfping_on_exhaustion"]:
+        if (facts["selfping_on_exhaustion"] if selfping is None else selfping):
             allok = list(recvs)
             ops.append(P.Op("efd_write", val=vp, cond=(lambda get, allok=allok: z3.And(*[get(o, "ok") for o in allok]) if allok else z3.BoolVal(True))))
             sp = len(ops) - 1
@@ -307,14 +326,22 @@ def p_chan(ctx, tier):
         out["solver_s"] += dt
         return sat, m
 
-    configs = [("unbounded", 2 ** 64 - 1, P.QCAP), ("sync0", 0, 0), ("sync1", 1, 1)]
-    for cname, cap, bound in configs:
-        maxb = min(batch_limit(facts, cap), 3)
-        nmsgs = 2 if tier == "quick" else 3
+    # (name, capacity, queue bound of the model, scaled batch limit or None). In the two *_smallbatch configurations the
+    # code's limit (1024 for these capacities) is scaled down to 2 so that more messages can be queued than one round
+    # takes: that is where the loop's own wake-up on an exhausted batch matters.
+    configs = [("unbounded", 2 ** 64 - 1, P.QCAP, None), ("sync0", 0, 0, None), ("sync1", 1, 1, None),
+               ("unbounded_smallbatch", 2 ** 64 - 1, P.QCAP, 2), ("sync2048_smallbatch", 2048, P.QCAP, 2)]
+    for cname, cap, bound, scaled in configs:
+        real_limit = batch_limit(facts, cap)
+        if scaled is not None and real_limit < 1024:
+            raise Unsupported("batch limit for capacity %d is %d: the scaled configuration does not apply" % (cap, real_limit))
+        maxb = min(real_limit, 3) if scaled is None else scaled
+        nmsgs = (2 if tier == "quick" else 3) if scaled is None else 3
+        sp_here = selfping_for(facts, cap)
         # ---- sender thread program
         sops = []
         for mi in range(nmsgs):
-            if cname == "unbounded":
+            if cname.startswith("unbounded"):
                 for kind in facts["send_ok_order"]:
                     sops.append(P.Op("q_send", val=mi + 1) if kind == "enq" else P.Op("efd_write", val=vp))
             else:
@@ -336,10 +363,10 @@ def p_chan(ctx, tier):
                     else:
                         sops.append(P.Op("efd_write", val=vp, cond=cnd))
         n_send_ops = len(sops)
-        for fld in facts["drop_order_" + ("Sender" if cname == "unbounded" else "SyncSender")]:
+        for fld in facts["drop_order_" + ("Sender" if cname.startswith("unbounded") else "SyncSender")]:
             sops.append(P.Op("q_drop_sender") if fld == "sender" else P.Op("efd_write", val=vp))
         sender = P.Thread("sender", sops)
-        loop, layout = chan_loop(facts, vp, rounds, maxb, nmsgs)
+        loop, layout = chan_loop(facts, vp, rounds, maxb, nmsgs, selfping=sp_here)
         ex = P.Execution([sender, loop], senders=1, bound=bound)
         L = 1
         for r, lay in enumerate(layout):
@@ -393,7 +420,7 @@ def p_chan(ctx, tier):
                 cex = cex or ("[%s]\n" % cname) + "\n".join(ex.schedule(m))
                 break
         # (4) blocked sender while the loop is idle
-        if cname != "unbounded":
+        if not cname.startswith("unbounded"):
             sat, m = q(ex, z3.Not(sdone), quiescent, z3.Not(z3.Or(*closed)) if closed else z3.BoolVal(True))
             if sat:
                 failing.append("synchronous_send_stuck_while_loop_idle[%s]" % cname)
@@ -401,7 +428,7 @@ def p_chan(ctx, tier):
     return {"ok": not failing, "witness": witness, "failing": sorted(set(failing)), "cex": cex,
             "detail": "send order %s, try_send ping %s, sync full order %s, drop order %s/%s, batch limits %s, self-ping %s"
                       % (facts["send_ok_order"], facts["try_send_ping"], facts["sync_send_full_order"], facts["drop_order_Sender"],
-                         facts["drop_order_SyncSender"], [batch_limit(facts, c_[1]) for c_ in configs], facts["selfping_on_exhaustion"]),
+                         facts["drop_order_SyncSender"], [batch_limit(facts, c_[1]) for c_ in configs], [selfping_for(facts, c_[1]) for c_ in configs]),
             "queries": out["queries"], "solver_s": out["solver_s"], "paths": 0, "opaque": []}
 
 
